@@ -37,4 +37,522 @@ def CommitFeasible (r : CHPR) (on : List Bool) : Prop :=
 
 def ucp (r : CHPR) : UCP := { R := r.R, D := r.D, tar := r.tar, tao := r.tao }
 
+/-! ## (A) membership -/
+theorem mem_startRows (r : CHPR) (row : Row) :
+    row ∈ r.startRows ↔ r.incStart = true ∧
+      ((∃ i, i < r.T - 1 ∧ row = r.startDefRow i) ∨ (r.tar = 0 ∧ row = r.startFirstRow)) := by
+  unfold CHPR.startRows
+  by_cases hs : r.incStart = true
+  · by_cases h0 : r.tar = 0
+    · simp [hs, h0, List.mem_append, List.mem_map, List.mem_range, eq_comm]
+    · simp [hs, h0, List.mem_map, List.mem_range, eq_comm]
+  · simp [hs]
+
+theorem mem_runtimeRows (r : CHPR) (row : Row) :
+    row ∈ r.runtimeRows ↔ r.incStart = true ∧ 1 < r.R ∧
+      ∃ t i, t < r.T ∧ 1 ≤ i ∧ i < r.R ∧ i ≤ t ∧ row = r.runtimeRow t i := by
+  unfold CHPR.runtimeRows
+  by_cases hs : r.incStart = true ∧ 1 < r.R
+  · rw [if_pos hs]
+    simp only [List.mem_flatMap, List.mem_map, List.mem_filter, List.mem_range, List.mem_range'_1,
+      decide_eq_true_eq]
+    constructor
+    · rintro ⟨t, ht, i, ⟨⟨h1, h2⟩, h3⟩, rfl⟩
+      exact ⟨hs.1, hs.2, t, i, ht, h1, by omega, h3, rfl⟩
+    · rintro ⟨_, _, t, i, ht, h1, h2, h3, rfl⟩
+      exact ⟨t, ht, i, ⟨⟨h1, by omega⟩, h3⟩, rfl⟩
+  · rw [if_neg hs]
+    simp only [List.not_mem_nil, false_iff]
+    rintro ⟨h1, h2, _⟩
+    exact hs ⟨h1, h2⟩
+
+theorem mem_downtimeRows (r : CHPR) (row : Row) :
+    row ∈ r.downtimeRows ↔ 1 < r.D ∧
+      ∃ t i, t < r.T ∧ 1 ≤ i ∧ i < r.D ∧ i ≤ t ∧ row = r.downtimeRow t i := by
+  unfold CHPR.downtimeRows
+  by_cases hs : 1 < r.D
+  · rw [if_pos hs]
+    simp only [List.mem_flatMap, List.mem_map, List.mem_filter, List.mem_range, List.mem_range'_1,
+      decide_eq_true_eq]
+    constructor
+    · rintro ⟨t, ht, i, ⟨⟨h1, h2⟩, h3⟩, rfl⟩
+      exact ⟨hs, t, i, ht, h1, by omega, h3, rfl⟩
+    · rintro ⟨_, t, i, ht, h1, h2, h3, rfl⟩
+      exact ⟨t, ht, i, ⟨⟨h1, by omega⟩, h3⟩, rfl⟩
+  · rw [if_neg hs]
+    simp only [List.not_mem_nil, false_iff]
+    rintro ⟨h1, _⟩
+    exact hs h1
+
+/-! ## (B) Sat -/
+theorem sat_startDef (r : CHPR) (x : Vec) (i : Nat) :
+    (r.startDefRow i).Sat x ↔ x (r.layout.on (i+1)) - x (r.layout.on i) - x (r.layout.start (i+1)) ≤ 0 := by
+  simp [Row.Sat, Row.eval, CHPR.startDefRow]
+  grind
+
+theorem sat_startFirst (r : CHPR) (x : Vec) :
+    (r.startFirstRow).Sat x ↔ x (r.layout.on 0) = x (r.layout.start 0) := by
+  simp [Row.Sat, Row.eval, CHPR.startFirstRow]
+  grind
+
+theorem sat_runtime (r : CHPR) (x : Vec) (t i : Nat) :
+    (r.runtimeRow t i).Sat x ↔ x (r.layout.start (t-i)) ≤ x (r.layout.on t) := by
+  simp [Row.Sat, Row.eval, CHPR.runtimeRow]
+  grind
+
+theorem sat_downtime_lt (r : CHPR) (x : Vec) (t i : Nat) (h : i < t) :
+    (r.downtimeRow t i).Sat x ↔
+      x (r.layout.on t) - x (r.layout.on (t-i)) + x (r.layout.on (t-i-1)) ≤ 1 := by
+  simp [Row.Sat, Row.eval, CHPR.downtimeRow, h]
+  grind
+
+theorem sat_downtime_eq (r : CHPR) (x : Vec) (t : Nat) :
+    (r.downtimeRow t t).Sat x ↔
+      x (r.layout.on t) - x (r.layout.on 0) ≤ (if r.tao = 0 then 0 else 1) := by
+  simp [Row.Sat, Row.eval, CHPR.downtimeRow]
+  grind
+
+/-! ## (C) bounds -/
+theorem getD_setSliceFrom (xs : List Rat) (i a b : Nat) (v : Rat) (j : Nat) (d : Rat) :
+    (setSliceFrom xs i a b v).getD j d = if a ≤ i + j ∧ i + j < b ∧ j < xs.length then v else xs.getD j d := by
+  induction xs generalizing i j with
+  | nil => simp [setSliceFrom]
+  | cons y ys ih =>
+    cases j with
+    | zero => simp [setSliceFrom]
+    | succ j =>
+      simp only [setSliceFrom, List.getD_cons_succ, ih, List.length_cons]
+      have : i + 1 + j = i + (j + 1) := by omega
+      rw [this]
+      simp
+
+theorem getD_setSlice (xs : List Rat) (a b : Nat) (v : Rat) (j : Nat) (d : Rat) :
+    (setSlice xs a b v).getD j d = if a ≤ j ∧ j < b ∧ j < xs.length then v else xs.getD j d := by
+  unfold setSlice
+  rw [getD_setSliceFrom]
+  simp
+
+theorem onIdx_eq (r : CHPR) (hwf : CommitWF r) : r.layout.onIdx = if r.heat = true then 2 * r.T else r.T := by
+  unfold CHPR.layout
+  by_cases hh : r.heat = true
+  · have : r.base.mapping.filter (fun m => m.kind == VarKind.d) = r.base.mapping :=
+      List.filter_eq_self.2 (fun m hm => by simp [hwf.hd hh m hm])
+    simp [hh, this, hwf.hm]
+  · simp [hh, hwf.hm]
+
+theorem getD_blk1 (P : List Rat) (o T : Nat) (c : Rat) (hP : P.length = o) (t : Nat) (ht : t < T) :
+    (P ++ List.replicate T c).getD (o + t) 0 = c := by
+  subst hP
+  simp [List.getD_eq_getElem?_getD, List.getElem?_append_right, List.getElem?_replicate, ht]
+
+theorem getD_blk2 (P : List Rat) (o T : Nat) (c c' : Rat) (hP : P.length = o) (t : Nat) (ht : t < T) :
+    (P ++ List.replicate T c ++ List.replicate T c').getD (o + t) 0 = c := by
+  subst hP
+  rw [List.getD_eq_getElem?_getD, List.getElem?_append_left (by simp; omega)]
+  simp [List.getElem?_append_right, List.getElem?_replicate, ht]
+
+theorem getD_blk3 (P : List Rat) (o T : Nat) (c c' : Rat) (hP : P.length = o) (t : Nat) (ht : t < T) :
+    (P ++ List.replicate T c ++ List.replicate T c').getD (o + T + t) 0 = c' := by
+  subst hP
+  rw [List.getD_eq_getElem?_getD, List.getElem?_append_right (by simp)]
+  simp [ht]
+
+theorem lower_pre_len (r : CHPR) (hwf : CommitWF r) :
+    (if r.heat = true then List.replicate (2 * r.base.c.length) (0 : Rat)
+      else (if r.incOn = true then r.base.l.map fun _ => (0 : Rat) else r.base.l)).length = r.layout.onIdx := by
+  rw [onIdx_eq r hwf]
+  by_cases hh : r.heat = true
+  · simp [hh, hwf.hc]
+  · by_cases ho : r.incOn = true <;> simp [hh, ho, hwf.hl]
+
+theorem upper_pre_len (r : CHPR) (hwf : CommitWF r) :
+    (if r.heat = true then r.base.u ++ r.uHeat else r.base.u).length = r.layout.onIdx := by
+  rw [onIdx_eq r hwf]
+  by_cases hh : r.heat = true
+  · have : r.uHeat.length = r.T := by
+      unfold CHPR.uHeat CHPR.n
+      cases r.share <;> simp [hwf.hl]
+    simp [hh, hwf.hu, this]; omega
+  · simp [hh, hwf.hu]
+
+theorem lower_on (r : CHPR) (hwf : CommitWF r) (hon : r.incOn = true) (t : Nat) (ht : t < r.T) :
+    r.lower.getD (r.layout.on t) 0 =
+      if (r.incStart = true ∧ 1 < r.R ∧ 0 < r.tar ∧ r.tar < r.R ∧ t < r.R - r.tar) then 1 else 0 := by
+  have hP := lower_pre_len r hwf
+  simp only [CHPR.lower, CHPLayout.on]
+  generalize (if r.heat = true then List.replicate (2 * r.base.c.length) (0 : Rat)
+      else (if r.incOn = true then r.base.l.map fun _ => (0 : Rat) else r.base.l)) = P at hP ⊢
+  generalize r.layout.onIdx = o at hP ⊢
+  by_cases hs : r.incStart = true
+  · simp only [hon, hs, and_self, if_true, true_and]
+    by_cases hc : 1 < r.R ∧ 0 < r.tar ∧ r.tar < r.R
+    · rw [if_pos hc, getD_setSlice, getD_blk2 P o r.T 0 0 hP t ht]
+      simp [hP, hc, ht]
+      by_cases h : t < r.R - r.tar
+      · rw [if_pos (by omega), if_pos h]
+      · rw [if_neg (by omega), if_neg h]
+    · rw [if_neg hc, getD_blk2 P o r.T 0 0 hP t ht]
+      rw [if_neg (by intro h; exact hc ⟨h.1, h.2.1, h.2.2.1⟩)]
+  · have hs' : r.incStart = false := by simpa using hs
+    simp only [hon, hs', Bool.false_eq_true, and_false, false_and, ↓reduceIte]
+    rw [getD_blk1 P o r.T 0 hP t ht]
+
+
+theorem upper_on (r : CHPR) (hwf : CommitWF r) (hon : r.incOn = true) (t : Nat) (ht : t < r.T) :
+    r.upper.getD (r.layout.on t) 0 =
+      if (1 < r.D ∧ 0 < r.tao ∧ r.tao < r.D ∧ t < r.D - r.tao) then 0 else 1 := by
+  have hP := upper_pre_len r hwf
+  simp only [CHPR.upper, CHPLayout.on]
+  generalize (if r.heat = true then r.base.u ++ r.uHeat else r.base.u) = P at hP ⊢
+  generalize r.layout.onIdx = o at hP ⊢
+  by_cases hc : 1 < r.D ∧ 0 < r.tao ∧ r.tao < r.D
+  · rw [if_pos hc, getD_setSlice]
+    by_cases hs : r.incStart = true
+    · simp only [hon, hs, and_self, if_true]
+      rw [getD_blk2 P o r.T 1 1 hP t ht]
+      simp [hP, hc]
+      by_cases h : t < r.D - r.tao
+      · rw [if_pos (by omega), if_pos h]
+      · rw [if_neg (by omega), if_neg h]
+    · have hs' : r.incStart = false := by simpa using hs
+      simp only [hon, hs', Bool.false_eq_true, and_false, ↓reduceIte]
+      rw [getD_blk1 P o r.T 1 hP t ht]
+      simp [hP, hc]
+      by_cases h : t < r.D - r.tao
+      · rw [if_pos (by omega), if_pos h]
+      · rw [if_neg (by omega), if_neg h]
+  · have hrhs : (if (1 < r.D ∧ 0 < r.tao ∧ r.tao < r.D ∧ t < r.D - r.tao) then (0 : Rat) else 1) = 1 :=
+      if_neg (by intro h; exact hc ⟨h.1, h.2.1, h.2.2.1⟩)
+    rw [hrhs, if_neg hc]
+    by_cases hs : r.incStart = true
+    · simp only [hon, hs, and_self, if_true]
+      rw [getD_blk2 P o r.T 1 1 hP t ht]
+    · have hs' : r.incStart = false := by simpa using hs
+      simp only [hon, hs', Bool.false_eq_true, and_false, ↓reduceIte]
+      rw [getD_blk1 P o r.T 1 hP t ht]
+
+theorem lower_start (r : CHPR) (hwf : CommitWF r) (hs : r.incStart = true) (t : Nat) (ht : t < r.T) :
+    r.lower.getD (r.layout.start t) 0 =
+      if (1 < r.R ∧ 0 < r.tar ∧ r.tar < r.R ∧ r.T + t < r.R - r.tar) then 1 else 0 := by
+  have hon := hwf.hso hs
+  have hP := lower_pre_len r hwf
+  have hst : r.layout.startIdx = r.layout.onIdx + r.T := rfl
+  simp only [CHPR.lower, CHPLayout.start, hst]
+  generalize (if r.heat = true then List.replicate (2 * r.base.c.length) (0 : Rat)
+      else (if r.incOn = true then r.base.l.map fun _ => (0 : Rat) else r.base.l)) = P at hP ⊢
+  generalize r.layout.onIdx = o at hP ⊢
+  simp only [hon, hs, and_self, if_true, true_and]
+  by_cases hc : 1 < r.R ∧ 0 < r.tar ∧ r.tar < r.R
+  · rw [if_pos hc, getD_setSlice, getD_blk3 P o r.T 0 0 hP t ht]
+    simp [hP, hc, ht]
+    by_cases h : r.T + t < r.R - r.tar
+    · rw [if_pos (by omega), if_pos h]
+    · rw [if_neg (by omega), if_neg h]
+  · rw [if_neg hc, getD_blk3 P o r.T 0 0 hP t ht]
+    rw [if_neg (by intro h; exact hc ⟨h.1, h.2.1, h.2.2.1⟩)]
+
+theorem upper_start (r : CHPR) (hwf : CommitWF r) (hs : r.incStart = true) (t : Nat) (ht : t < r.T) :
+    r.upper.getD (r.layout.start t) 0 =
+      if (1 < r.D ∧ 0 < r.tao ∧ r.tao < r.D ∧ r.T + t < r.D - r.tao) then 0 else 1 := by
+  have hon := hwf.hso hs
+  have hP := upper_pre_len r hwf
+  have hst : r.layout.startIdx = r.layout.onIdx + r.T := rfl
+  simp only [CHPR.upper, CHPLayout.start, hst]
+  generalize (if r.heat = true then r.base.u ++ r.uHeat else r.base.u) = P at hP ⊢
+  generalize r.layout.onIdx = o at hP ⊢
+  simp only [hon, hs, and_self, if_true]
+  by_cases hc : 1 < r.D ∧ 0 < r.tao ∧ r.tao < r.D
+  · rw [if_pos hc, getD_setSlice, getD_blk3 P o r.T 1 1 hP t ht]
+    simp [hP, hc, ht]
+    by_cases h : r.T + t < r.D - r.tao
+    · rw [if_pos (by omega), if_pos h]
+    · rw [if_neg (by omega), if_neg h]
+  · rw [if_neg hc, getD_blk3 P o r.T 1 1 hP t ht]
+    rw [if_neg (by intro h; exact hc ⟨h.1, h.2.1, h.2.2.1⟩)]
+
+theorem startDef_bool (r : CHPR) (x : Vec) (i : Nat) (a b c : Bool)
+    (h1 : x (r.layout.on (i+1)) = b2r a) (h2 : x (r.layout.on i) = b2r b) (h3 : x (r.layout.start (i+1)) = b2r c) :
+    (r.startDefRow i).Sat x ↔ (a = true → b = false → c = true) := by
+  rw [sat_startDef, h1, h2, h3]
+  cases a <;> cases b <;> cases c <;> simp [b2r] <;> grind
+
+theorem startFirst_bool (r : CHPR) (x : Vec) (a c : Bool)
+    (h1 : x (r.layout.on 0) = b2r a) (h3 : x (r.layout.start 0) = b2r c) :
+    (r.startFirstRow).Sat x ↔ a = c := by
+  rw [sat_startFirst, h1, h3]
+  cases a <;> cases c <;> simp [b2r] <;> grind
+
+theorem runtime_bool (r : CHPR) (x : Vec) (t i : Nat) (a c : Bool)
+    (h1 : x (r.layout.on t) = b2r a) (h3 : x (r.layout.start (t-i)) = b2r c) :
+    (r.runtimeRow t i).Sat x ↔ (c = true → a = true) := by
+  rw [sat_runtime, h1, h3]
+  cases a <;> cases c <;> simp [b2r] <;> grind
+
+theorem downtime_lt_bool (r : CHPR) (x : Vec) (t i : Nat) (hi : i < t) (a b c : Bool)
+    (h1 : x (r.layout.on t) = b2r a) (h2 : x (r.layout.on (t-i)) = b2r b) (h3 : x (r.layout.on (t-i-1)) = b2r c) :
+    (r.downtimeRow t i).Sat x ↔ (a = true → b = false → c = true → False) := by
+  rw [sat_downtime_lt r x t i hi, h1, h2, h3]
+  cases a <;> cases b <;> cases c <;> simp [b2r] <;> grind
+
+theorem downtime_eq_bool (r : CHPR) (x : Vec) (t : Nat) (a b : Bool)
+    (h1 : x (r.layout.on t) = b2r a) (h2 : x (r.layout.on 0) = b2r b) :
+    (r.downtimeRow t t).Sat x ↔ (r.tao = 0 → a = true → b = false → False) := by
+  rw [sat_downtime_eq, h1, h2]
+  by_cases h0 : r.tao = 0 <;> cases a <;> cases b <;> simp [b2r, h0] <;> grind
+
+theorem ge_one_bool (a : Bool) (P : Prop) [Decidable P] :
+    ((if P then (1 : Rat) else 0) ≤ b2r a) ↔ (P → a = true) := by
+  by_cases hP : P <;> cases a <;> simp [b2r, hP] <;> grind
+
+theorem le_zero_bool (a : Bool) (P : Prop) [Decidable P] :
+    (b2r a ≤ (if P then (0 : Rat) else 1)) ↔ (P → a = false) := by
+  by_cases hP : P <;> cases a <;> simp [b2r, hP] <;> grind
+
+theorem le_one_bool (a : Bool) (P : Prop) [Decidable P] :
+    (b2r a ≤ (if P then (1 : Rat) else 0)) ↔ (a = true → P) := by
+  by_cases hP : P <;> cases a <;> simp [b2r, hP] <;> grind
+
+theorem ge_zero_bool (a : Bool) (P : Prop) [Decidable P] :
+    ((if P then (0 : Rat) else 1) ≤ b2r a) ↔ (a = false → P) := by
+  by_cases hP : P <;> cases a <;> simp [b2r, hP] <;> grind
+
+variable (r : CHPR) (x : Vec) (onf stf : Nat → Bool)
+
+theorem P_start (hwf : CommitWF r) (hs : r.incStart = true)
+    (hon : ∀ t, t < r.T → x (r.layout.on t) = b2r (onf t))
+    (hst : ∀ t, t < r.T → x (r.layout.start t) = b2r (stf t)) :
+    (∀ row ∈ r.startRows, row.Sat x) ↔
+      ((∀ t, t + 1 < r.T → onf (t+1) = true → onf t = false → stf (t+1) = true) ∧
+       (r.tar = 0 → stf 0 = onf 0)) := by
+  constructor
+  · intro h
+    constructor
+    · intro t ht
+      have := h (r.startDefRow t) ((mem_startRows r _).2 ⟨hs, Or.inl ⟨t, by omega, rfl⟩⟩)
+      exact (startDef_bool r x t _ _ _ (hon (t+1) ht) (hon t (by omega)) (hst (t+1) ht)).1 this
+    · intro h0
+      have := h r.startFirstRow ((mem_startRows r _).2 ⟨hs, Or.inr ⟨h0, rfl⟩⟩)
+      exact ((startFirst_bool r x _ _ (hon 0 hwf.hT) (hst 0 hwf.hT)).1 this).symm
+  · rintro ⟨h1, h2⟩ row hrow
+    rcases (mem_startRows r row).1 hrow with ⟨_, ⟨i, hi, rfl⟩ | ⟨h0, rfl⟩⟩
+    · exact (startDef_bool r x i _ _ _ (hon (i+1) (by omega)) (hon i (by omega)) (hst (i+1) (by omega))).2
+        (h1 i (by omega))
+    · exact (startFirst_bool r x _ _ (hon 0 hwf.hT) (hst 0 hwf.hT)).2 (h2 h0).symm
+
+theorem P_run (hs : r.incStart = true)
+    (hon : ∀ t, t < r.T → x (r.layout.on t) = b2r (onf t))
+    (hst : ∀ t, t < r.T → x (r.layout.start t) = b2r (stf t)) :
+    (∀ row ∈ r.runtimeRows, row.Sat x) ↔
+      (∀ t, t < r.T → ∀ i, 1 ≤ i → i < r.R → i ≤ t → stf (t - i) = true → onf t = true) := by
+  constructor
+  · intro h t ht i h1 h2 h3
+    have := h (r.runtimeRow t i) ((mem_runtimeRows r _).2 ⟨hs, by omega, t, i, ht, h1, h2, h3, rfl⟩)
+    exact (runtime_bool r x t i _ _ (hon t ht) (hst (t-i) (by omega))).1 this
+  · rintro h row hrow
+    obtain ⟨_, _, t, i, ht, h1, h2, h3, rfl⟩ := (mem_runtimeRows r row).1 hrow
+    exact (runtime_bool r x t i _ _ (hon t ht) (hst (t-i) (by omega))).2 (h t ht i h1 h2 h3)
+
+theorem P_down
+    (hon : ∀ t, t < r.T → x (r.layout.on t) = b2r (onf t)) :
+    (∀ row ∈ r.downtimeRows, row.Sat x) ↔
+      ((∀ t, t < r.T → ∀ i, 1 ≤ i → i < r.D → i < t →
+          onf t = true → onf (t-i) = false → onf (t-i-1) = true → False) ∧
+       (∀ t, t < r.T → 1 ≤ t → t < r.D → r.tao = 0 → onf t = true → onf 0 = false → False)) := by
+  constructor
+  · intro h
+    constructor
+    · intro t ht i h1 h2 h3
+      have := h (r.downtimeRow t i) ((mem_downtimeRows r _).2 ⟨by omega, t, i, ht, h1, h2, by omega, rfl⟩)
+      exact (downtime_lt_bool r x t i h3 _ _ _ (hon t ht) (hon (t-i) (by omega)) (hon (t-i-1) (by omega))).1 this
+    · intro t ht h1 h2
+      have := h (r.downtimeRow t t) ((mem_downtimeRows r _).2 ⟨by omega, t, t, ht, h1, h2, by omega, rfl⟩)
+      exact (downtime_eq_bool r x t _ _ (hon t ht) (hon 0 (by omega))).1 this
+  · rintro ⟨hA, hB⟩ row hrow
+    obtain ⟨_, t, i, ht, h1, h2, h3, rfl⟩ := (mem_downtimeRows r row).1 hrow
+    by_cases hit : i < t
+    · exact (downtime_lt_bool r x t i hit _ _ _ (hon t ht) (hon (t-i) (by omega)) (hon (t-i-1) (by omega))).2
+        (hA t ht i h1 h2 hit)
+    · have : i = t := by omega
+      subst this
+      exact (downtime_eq_bool r x i _ _ (hon i ht) (hon 0 (by omega))).2 (hB i ht h1 h2)
+
+theorem P_bon (hwf : CommitWF r) (ho : r.incOn = true)
+    (hon : ∀ t, t < r.T → x (r.layout.on t) = b2r (onf t)) :
+    (∀ t, t < r.T → r.lower.getD (r.layout.on t) 0 ≤ x (r.layout.on t) ∧
+        x (r.layout.on t) ≤ r.upper.getD (r.layout.on t) 0) ↔
+      ((0 < r.tar → ∀ t, t < r.R - r.tar → t < r.T → onf t = true) ∧
+       (0 < r.tao → ∀ t, t < r.D - r.tao → t < r.T → onf t = false)) := by
+  constructor
+  · intro h
+    constructor
+    · intro h0 t h1 ht
+      have := (h t ht).1
+      rw [lower_on r hwf ho t ht, hon t ht, ge_one_bool] at this
+      exact this ⟨hwf.hR (by omega), by omega, h0, by omega, h1⟩
+    · intro h0 t h1 ht
+      have := (h t ht).2
+      rw [upper_on r hwf ho t ht, hon t ht, le_zero_bool] at this
+      exact this ⟨by omega, h0, by omega, h1⟩
+  · rintro ⟨hA, hB⟩ t ht
+    rw [lower_on r hwf ho t ht, upper_on r hwf ho t ht, hon t ht, ge_one_bool, le_zero_bool]
+    exact ⟨fun h => hA h.2.2.1 t h.2.2.2.2 ht, fun h => hB h.2.1 t h.2.2.2 ht⟩
+
+theorem P_bst (hwf : CommitWF r) (hs : r.incStart = true)
+    (hst : ∀ t, t < r.T → x (r.layout.start t) = b2r (stf t)) :
+    (∀ t, t < r.T → r.lower.getD (r.layout.start t) 0 ≤ x (r.layout.start t) ∧
+        x (r.layout.start t) ≤ r.upper.getD (r.layout.start t) 0) ↔
+      ((0 < r.tar → ∀ t, r.T + t < r.R - r.tar → t < r.T → stf t = true) ∧
+       (0 < r.tao → ∀ t, r.T + t < r.D - r.tao → t < r.T → stf t = false)) := by
+  constructor
+  · intro h
+    constructor
+    · intro h0 t h1 ht
+      have := (h t ht).1
+      rw [lower_start r hwf hs t ht, hst t ht, ge_one_bool] at this
+      exact this ⟨by omega, h0, by omega, h1⟩
+    · intro h0 t h1 ht
+      have := (h t ht).2
+      rw [upper_start r hwf hs t ht, hst t ht, le_zero_bool] at this
+      exact this ⟨by omega, h0, by omega, h1⟩
+  · rintro ⟨hA, hB⟩ t ht
+    rw [lower_start r hwf hs t ht, upper_start r hwf hs t ht, hst t ht, ge_one_bool, le_zero_bool]
+    exact ⟨fun h => hA h.2.1 t h.2.2.2 ht, fun h => hB h.2.1 t h.2.2.2 ht⟩
+
+theorem b2r_cases (b : Bool) : b2r b = 0 ∨ b2r b = 1 := by cases b <;> simp [b2r]
+
+theorem specF_of_R_le_one (p : UCP) (T : Nat) (on : Nat → Bool) (hR : p.R ≤ 1)
+    (hD : ∀ t, t < T → ∀ i, 1 ≤ i → i < p.D → i < t →
+      on t = true → on (t-i) = false → on (t-i-1) = true → False)
+    (hD0 : ∀ t, t < T → 1 ≤ t → t < p.D → p.tao = 0 → on t = true → on 0 = false → False)
+    (hDinit : 0 < p.tao → ∀ t, t < p.D - p.tao → t < T → on t = false) : SpecF p T on := by
+  refine ⟨?_, ?_, ?_, ?_, ?_, hDinit⟩
+  · intro s hsT hs hon hoff k hk hskT
+    have : k = 0 := by omega
+    subst this; simpa using hon
+  · intro htar hon k hk hkT
+    have : k = 0 := by omega
+    subst this; exact hon
+  · intro htar t ht; omega
+  · intro s hsT hs hoff hon k hk hskT
+    by_cases hk0 : k = 0
+    · subst hk0; simpa using hoff
+    · cases hv : on (s+k) with
+      | false => rfl
+      | true =>
+        exfalso
+        have h1 : s + k - k = s := by omega
+        exact hD (s+k) hskT k (by omega) hk (by omega) hv (by rw [h1]; exact hoff)
+          (by rw [h1]; exact hon)
+  · intro htao hoff k hk hkT
+    by_cases hk0 : k = 0
+    · subst hk0; exact hoff
+    · cases hv : on k with
+      | false => rfl
+      | true => exact absurd (hD0 k hkT (by omega) hk htao hv hoff) id
+
+theorem commit_feasible_imp_spec (r : CHPR) (hwf : CommitWF r) (on : List Bool) (hlen : on.length = r.T) :
+    CommitFeasible r on → MinUpDown (ucp r) on := by
+  rintro ⟨x, hon, h01, hrows, hbon, hbst⟩
+  unfold MinUpDown; rw [hlen]
+  have hon' : ∀ t, t < r.T → x (r.layout.on t) = b2r (fn on t) := hon
+  have hrowsS : ∀ row ∈ r.startRows, row.Sat x := fun row h =>
+    hrows row (by unfold CHPR.commitRows; simp [h])
+  have hrowsR : ∀ row ∈ r.runtimeRows, row.Sat x := fun row h =>
+    hrows row (by unfold CHPR.commitRows; simp [h])
+  have hrowsD : ∀ row ∈ r.downtimeRows, row.Sat x := fun row h =>
+    hrows row (by unfold CHPR.commitRows; simp [h])
+  obtain ⟨c6, c7⟩ := (P_down r x (fn on) hon').1 hrowsD
+  have c8 : 0 < r.tao → ∀ t, t < r.D - r.tao → t < r.T → fn on t = false := by
+    by_cases hD : 1 < r.D
+    · exact ((P_bon r x (fn on) hwf (hwf.hD hD) hon').1 (hbon (hwf.hD hD))).2
+    · intro h0 t ht; omega
+  by_cases hs : r.incStart = true
+  · let stf : Nat → Bool := fun t => decide (x (r.layout.start t) = 1)
+    have hst : ∀ t, t < r.T → x (r.layout.start t) = b2r (stf t) := by
+      intro t ht
+      rcases h01 hs t ht with h | h
+      · have : stf t = false := by
+          show decide (x (r.layout.start t) = 1) = false
+          rw [h]; simp
+        rw [this, h]; rfl
+      · have : stf t = true := by
+          show decide (x (r.layout.start t) = 1) = true
+          rw [h]; simp
+        rw [this, h]; rfl
+    obtain ⟨c1, c2⟩ := (P_start r x (fn on) stf hwf hs hon' hst).1 hrowsS
+    have c3 := (P_run r x (fn on) stf hs hon' hst).1 hrowsR
+    obtain ⟨c4, _⟩ := (P_bon r x (fn on) hwf (hwf.hso hs) hon').1 (hbon (hwf.hso hs))
+    obtain ⟨c5, c9⟩ := (P_bst r x stf hwf hs hst).1 (hbst hs)
+    exact rowsF_imp_specF (ucp r) r.T (fn on) stf ⟨c1, c2, c3, c4, c5, c6, c7, c8, c9⟩
+  · have hR : r.R ≤ 1 := by
+      apply Nat.le_of_not_lt; intro h; exact hs (hwf.hR h)
+    exact specF_of_R_le_one (ucp r) r.T (fn on) hR c6 c7 c8
+
+theorem spec_imp_commit_feasible (r : CHPR) (hwf : CommitWF r) (on : List Bool) (hlen : on.length = r.T) :
+    MinUpDown (ucp r) on → CommitFeasible r on := by
+  intro h
+  unfold MinUpDown at h; rw [hlen] at h
+  obtain ⟨c1, c2, c3, c4, c5, c6, c7, c8, c9⟩ := specF_imp_rowsF (ucp r) r.T (fn on) h
+  let stf := startOf (ucp r) r.T (fn on)
+  let o := r.layout.onIdx
+  let x : Vec := fun j =>
+    if o ≤ j ∧ j < o + r.T then b2r (fn on (j - o))
+    else if o + r.T ≤ j ∧ j < o + r.T + r.T then b2r (stf (j - o - r.T)) else 0
+  have hon : ∀ t, t < r.T → x (r.layout.on t) = b2r (fn on t) := by
+    intro t ht
+    have e1 : r.layout.on t = o + t := rfl
+    rw [e1]
+    show (if o ≤ o + t ∧ o + t < o + r.T then b2r (fn on (o + t - o)) else _) = _
+    rw [if_pos ⟨by omega, by omega⟩, Nat.add_sub_cancel_left]
+  have hst : ∀ t, t < r.T → x (r.layout.start t) = b2r (stf t) := by
+    intro t ht
+    have e2 : r.layout.start t = o + r.T + t := rfl
+    rw [e2]
+    show (if o ≤ o + r.T + t ∧ o + r.T + t < o + r.T then _
+      else if o + r.T ≤ o + r.T + t ∧ o + r.T + t < o + r.T + r.T then b2r (stf (o + r.T + t - o - r.T)) else _) = _
+    rw [if_neg (by omega), if_pos ⟨by omega, by omega⟩]
+    have : o + r.T + t - o - r.T = t := by omega
+    rw [this]
+  refine ⟨x, hon, ?_, ?_, ?_, ?_⟩
+  · intro _ t ht; rw [hst t ht]; exact b2r_cases _
+  · intro row hrow
+    unfold CHPR.commitRows at hrow
+    rcases List.mem_append.1 hrow with hrow | hrow
+    · rcases List.mem_append.1 hrow with hrow | hrow
+      · have hs := ((mem_startRows r row).1 hrow).1
+        exact (P_start r x (fn on) stf hwf hs hon hst).2 ⟨c1, c2⟩ row hrow
+      · have hs := ((mem_runtimeRows r row).1 hrow).1
+        exact (P_run r x (fn on) stf hs hon hst).2 c3 row hrow
+    · exact (P_down r x (fn on) hon).2 ⟨c6, c7⟩ row hrow
+  · intro ho; exact (P_bon r x (fn on) hwf ho hon).2 ⟨c4, c8⟩
+  · intro hs; exact (P_bst r x stf hwf hs hst).2 ⟨c5, c9⟩
+
+theorem commit_rows_iff_spec (r : CHPR) (hwf : CommitWF r) (on : List Bool) (hlen : on.length = r.T) :
+    CommitFeasible r on ↔ MinUpDown (ucp r) on :=
+  ⟨commit_feasible_imp_spec r hwf on hlen, spec_imp_commit_feasible r hwf on hlen⟩
+
+/-! ## the hypotheses are satisfiable on a non-trivial instance
+(T = 3, R = 2, D = 2, already off for 1 step, no heat node) -/
+def exBase : AssetProblem :=
+  { name := "a", nodes := ["n"], c := [0, 0, 0], l := [0, 0, 0], u := [1, 1, 1], rows := [],
+    mapping := [default, default, default] }
+
+def exR : CHPR :=
+  { (default : CHPR) with
+    T := 3, idx := [0, 1, 2], base := exBase, heat := false, R := 2, D := 2, tar := 0, tao := 1,
+    incOn := true, incStart := true }
+
+example : CommitWF exR :=
+  { hT := (by decide), hl := (by decide), hu := (by decide), hc := (by decide), hm := (by decide),
+    hd := (by intro h; cases h), hR := fun _ => rfl, hD := fun _ => rfl, hso := fun _ => rfl }
+
+example : MinUpDown (ucp exR) [false, true, true] ∧ ¬ MinUpDown (ucp exR) [true, true, false] ∧
+    ¬ MinUpDown (ucp exR) [false, true, false] := by decide
+
 end EAO.CHPCommit
+
+/-
+`#print axioms` (scratch file importing this module):
+'EAO.CHPCommit.commit_rows_iff_spec' depends on axioms: [propext, Classical.choice, Quot.sound]
+(same for commit_feasible_imp_spec, spec_imp_commit_feasible)
+-/
